@@ -2172,7 +2172,10 @@ def run_tape(
             op = opcodes[op_code][1]
         else:
             op = nopcodes[op_code][1]
-        op(tape, stack, cache)
+        try:
+            op(tape, stack, cache)
+        except RecursionError:
+            sert(False, 'interpreter recursion limit reached')
 
 def run_script(
         script: bytes|ScriptProtocol, cache_vals: dict = {},
